@@ -83,6 +83,7 @@ type Op struct {
 	Rt      int    `json:"rt,omitempty"`
 	Epoch   uint64 `json:"epoch,omitempty"`
 	ID      int    `json:"id,omitempty"`
+	Moved   string `json:"moved,omitempty"` // generator annotation (histogram only)
 }
 
 type Case struct {
@@ -747,6 +748,9 @@ func runCase(c Case) (res runResult) {
 		after := w.dump()
 		res.stats["op:"+o.K]++
 		res.stats["code:"+o.K+"/"+code]++
+		if o.Moved != "" {
+			res.stats["reregistration:"+o.Moved+"/"+code]++
+		}
 		if (o.K == "regnode" || o.K == "lsetnode") && code == "COk" {
 			uk := updateKind(old, o.Node)
 			res.stats["node_write:"+uk]++
@@ -937,8 +941,39 @@ func genTx(r *prng.R) Case {
 		default:
 			id := pick(r, nodeIDs)
 			var d NodeD
+			moved := ""
 			if cur := sh.nodes[id]; cur != nil {
 				d = mutateKeys(r, sh, *cur, false)
+				// re-registration of the same node id under a DIFFERENT entity
+				// (which lists the node) and/or with a different consensus key:
+				// often for a node that is expired but still held during the
+				// debonding interval, sometimes for a live node.  VerifyNodeUpdate
+				// must reject all of them.
+				expired := cur.Exp < sh.epoch
+				if (expired && r.Chance(45)) || (!expired && r.Chance(7)) {
+					d = *cur
+					if r.Chance(30) {
+						d = mutateKeys(r, sh, *cur, false)
+						d.Ent, d.Cons = cur.Ent, cur.Cons
+					}
+					mode := r.Intn(3)
+					if mode != 1 {
+						d.Ent = 1 + (cur.Ent-1+r.Range(1, nEnts-1))%nEnts
+						if !contains(entLists[d.Ent], id) && r.Chance(90) {
+							l := append(append([]int{}, entLists[d.Ent]...), id)
+							c.Ops = append(c.Ops, Op{K: "regent", Txs: d.Ent, Ent: d.Ent, Nodes: l, DSigner: d.Ent, SigOK: true})
+							entLists[d.Ent] = l
+						}
+					}
+					if mode != 0 {
+						d.Cons = freshKeys(r, sh, 1, keysOf(cur))[0]
+					}
+					if expired {
+						moved = "expired_" + []string{"entity", "cons", "entity+cons"}[mode]
+					} else {
+						moved = "live_" + []string{"entity", "cons", "entity+cons"}[mode]
+					}
+				}
 			} else {
 				ent := 1 + (id-nEnts-1)%nEnts
 				if r.Chance(8) {
@@ -987,9 +1022,12 @@ func genTx(r *prng.R) Case {
 				o.Txs = r.Range(1, poolSize)
 				variant += "+tx_by_random"
 			}
+			o.Moved = moved
 			c.Ops = append(c.Ops, o)
-			_ = variant
 			// optimistic shadow: assume a fully signed, well-formed registration is accepted
+			if cur := sh.nodes[id]; cur != nil && (cur.Ent != d.Ent || cur.Cons != d.Cons) {
+				variant += "+illegal_update"
+			}
 			if variant == "full" && contains(entLists[d.Ent], d.ID) && d.Exp > sh.epoch && d.Exp <= sh.epoch+maxExp {
 				nd := d
 				sh.nodes[id] = &nd
@@ -1064,7 +1102,23 @@ func fixedCases() []Case {
 		d := &NodeD{ID: 4, Ent: 1, Cons: 8, P2P: p2p, VRF: vrf, TLS: tls, Exp: exp}
 		return Op{K: "regnode", Txs: 4, Node: d, Signers: []int{4, p2p, 8, tls, vrf}, SigOK: true}
 	}
+	entB := Op{K: "regent", Txs: 2, Ent: 2, Nodes: []int{4}, DSigner: 2, SigOK: true}
+	regAs := func(e, cons int, exp uint64) Op {
+		d := &NodeD{ID: 4, Ent: e, Cons: cons, P2P: 9, VRF: 10, TLS: 11, Exp: exp}
+		return Op{K: "regnode", Txs: 4, Node: d, Signers: []int{4, 9, cons, 11, 10}, SigOK: true}
+	}
+	moved := func(second Op, at uint64) Case {
+		// node 4 of entity 1 expires at 2; at epoch `at` it is re-registered by `second`;
+		// later it expires again and is removed; then both entities try to deregister
+		return Case{Layer: "tx", Ops: []Op{ent, entB, reg(9, 10, 11, 2), {K: "epoch", Epoch: at}, second,
+			{K: "epoch", Epoch: at + 9}, {K: "deregent", Txs: 1}, {K: "deregent", Txs: 2}}}
+	}
 	return []Case{
+		moved(regAs(2, 8, 7), 3),  // expired, within debonding: other entity
+		moved(regAs(1, 12, 7), 3), // expired, within debonding: other consensus key
+		moved(regAs(2, 12, 7), 4), // both
+		moved(regAs(2, 8, 5), 1),  // live node: other entity
+		moved(regAs(2, 8, 9), 5),  // removed after debonding: a fresh registration under the other entity is fine
 		// rotation of every key to fresh ones, then expiry, removal, re-registration
 		{Layer: "tx", Ops: []Op{ent, reg(9, 10, 11, 2), reg(12, 13, 14, 3), {K: "epoch", Epoch: 4}, {K: "epoch", Epoch: 6}, reg(9, 10, 11, 8), {K: "deregent", Txs: 1}}},
 		// update that exchanges the P2P and TLS keys
